@@ -280,4 +280,20 @@ PROPS = {
                  5: "monitors disagree on the order"},
         "assumptions": ["a client has one transaction in flight at a time"],
     },
+    "C20": {
+        "level_text": ("Theorems (Props/C20.v, axiom-free): for every column (any extended type, key and value types, min, max, with or without an enum, enum types on or off) the "
+                       "Go type modelgen writes for the field is, up to the generated enum aliases, the type ovsdb.NativeType demands (the identity mapper/info.go checks), and "
+                       "the generated deep copy treats exactly the fields that type makes pointers, slices or maps; that such a copy is equal and shares no memory is C13's "
+                       "Clone theorem. Tied to the code by FieldType / FieldTypeWithEnums / NativeType on generated column types, and by the real generator: generated schemas "
+                       "(table names with underscores, column names needing initialisms, enums of strings, integers and reals as atom/optional/set/map key) are generated "
+                       "under the 4 option combinations, twice (byte-identical), built with go build in a scratch module, validated with model.NewDatabaseModel against their "
+                       "schema, and the Clone/CloneInto/Equal laws are run on randomly filled instances of every generated struct (generated fast path and generic path). "
+                       "Partial: compilation, reproducibility and the behaviour of the generated methods are decided by that driver, not by a theorem about the templates."),
+        "level_note": ("Trusted: Coq kernel + vm_compute, std++; Go harness, the Go toolchain building the generated code. Known finding: the generic JSON-based Clone cannot copy "
+                       "maps keyed by reals or booleans (class 21; such tables are skipped on the generic path)."),
+        "rule": ("500 (thorough 6000) generated column types through the three type functions; 3 (thorough 12) schemas of 1..3 tables with 3..10 columns x 4 option "
+                 "combinations; 40 filled instances per generated struct. Non-trivial: the field is a pointer, slice or map."),
+        "tags": {1: "FieldType vs the model", 2: "FieldTypeWithEnums vs the model", 3: "NativeType vs the model", 9: "the model's decoder rejects the column"},
+        "assumptions": ["column and table names do not collide after camel-casing", "enum values of strings are identifier-like (letters, digits, '-', '_')"],
+    },
 }
